@@ -12,7 +12,7 @@ import genlib as G
 import c04_frontier as C4
 
 F = "routee-compass/src/plugin/input/default/edge_rtree/edge_rtree_input_plugin.rs"
-OBLIGATIONS = ["search", "within_tolerance"]
+OBLIGATIONS = ["search", "within_tolerance", "validate_tolerance"]
 MUST_FAIL = ["vacuity_probe"]
 
 SHIMS = """
@@ -98,6 +98,21 @@ def build(x):
     wt.body_start("    broadcast use areal, lits; proof { areal_obeys(); }")
     texts.append(wt.text)
     parts.append(wt.text + "\n")
+    # ---- the vertex plugin's tolerance check ----
+    VF = "routee-compass/src/plugin/input/default/vertex_rtree/plugin.rs"
+    vt = x.fn(VF, "fn validate_tolerance")
+    vt.replace_macro_calls(r"format", "verif_format()")
+    vt.rewrite(r"&Coord<f32>", "&CoordF32", 2, 2, rule="R-path")
+    vt.rewrite(r"\.map_err\(InputPluginError::InputPluginFailed\)\?", ".map_err(|e: String| -> (er: InputPluginError) { InputPluginError::InputPluginFailed(e) })?", 1, 1, rule="R-closure")
+    vt.rewrite(r"\A(\s*)fn ", r"\1pub fn ", 0, 1, rule="R2")
+    vt.name_return("r")
+    vt.add_spec("""    ensures
+        // C16 (vertex plugin): with a tolerance, the matched vertex is accepted only if its great-circle distance from the coordinate, in the tolerance's unit, is BELOW the tolerance
+        r is Ok ==> (tolerance matches Some(t) ==> conv_DistanceUnit(DistanceUnit::Meters, t.1, gc_m(src, dst)) < t.0@),
+        tolerance is None ==> r is Ok,""")
+    vt.body_start("    broadcast use areal, lits; proof { areal_obeys(); }")
+    texts.append(vt.text)
+    parts.append(vt.text + "\n")
     f = x.fn(F, "fn search")
     f.replace_macro_calls(r"format", "verif_format()")
     f.rewrite(r"coord: Coord<f32>,", "coord: CoordF32,", 1, 1, rule="R-path")
